@@ -91,7 +91,11 @@ static void gen_header_for(vh_rng_t * rng, const char * pat, char * out, size_t 
         if (allow_miss && vh_chance(rng, 1, 25)) { size_t l = strlen(kw); if (vh_chance(rng, 1, 2) && l > 1) kw[l - 1] = 0; else { kw[l] = 'Q'; kw[l + 1] = 0; } }
         if (lower) for (k = 0; kw[k]; k++) kw[k] = (char) tolower((unsigned char) kw[k]);
         n += (size_t) snprintf(out + n, cap - n, "%s%s", first ? "" : ":", kw);
-        if ((s->suffix && vh_chance(rng, 2, 3)) || (allow_miss && !s->suffix && vh_chance(rng, 1, 30))) n += (size_t) snprintf(out + n, cap - n, vh_chance(rng, 1, 6) ? "%014u" : "%u", (unsigned) vh_below(rng, 130)); /* zero padding is legal and unlimited */
+        if ((s->suffix && vh_chance(rng, 2, 3)) || (allow_miss && !s->suffix && vh_chance(rng, 1, 30))) { /* the suffix VALUE ranges over what the number type reported to the handler can hold: small numbers mostly, and the decimal and binary boundaries up to 2147483647 */
+            static const unsigned edge[] = { 0, 1, 9, 10, 99, 100, 255, 256, 32767, 32768, 65535, 65536, 99999999u, 100000000u, 999999999u, 1000000000u, 2147483639u, 2147483640u, 2147483646u, 2147483647u };
+            unsigned val = vh_chance(rng, 1, 8) ? edge[vh_below(rng, sizeof edge / sizeof edge[0])] : (unsigned) vh_below(rng, 130);
+            if (val > 65536) vh_count("headers.numeric_suffix_above_65536", 1);
+            n += (size_t) snprintf(out + n, cap - n, vh_chance(rng, 1, 6) ? "%014u" : "%u", val); } /* zero padding is legal and unlimited */
         first = 0;
     }
     if (first) n += (size_t) snprintf(out + n, cap - n, "%s", p.s[p.n - 1].sht); /* all optional keywords skipped: write the last one */
@@ -326,6 +330,6 @@ int main(int argc, char ** argv) {
     vh_scribble_chunk_in_callbacks(1); vh_decoy_enable(7); vh_require("decoy.messages_run_on_a_second_context"); vh_require("unit.defined.relative.after-defined-compound"); vh_require("unit.defined.relative.after-undefined-compound");
     vh_require("unit.defined.relative.after-common"); vh_require("unit.undefined.relative.after-defined-compound");
     vh_require("unit.defined.absolute.after-defined-compound"); vh_require("unit.overlap_first_match_matters");
-    vh_require("handler.iscmd_checks"); vh_require("messages.ended_by_zero_length_input_call"); vh_require("tables.installed_on_a_live_context"); vh_require("messages.on_a_context_that_served_earlier_messages"); vh_require("unit.first_match_without_handler_shadows_later_handler"); vh_require("tables.from_shipped_patterns"); vh_require("units.empty_unit_at_the_end"); vh_require("units.empty_unit_in_front"); vh_require("units.empty_unit_in_the_middle"); vh_require("messages.ended_by_separator_and_zero_length_call_followed_by_another_message");
+    vh_require("handler.iscmd_checks"); vh_require("messages.ended_by_zero_length_input_call"); vh_require("tables.installed_on_a_live_context"); vh_require("messages.on_a_context_that_served_earlier_messages"); vh_require("unit.first_match_without_handler_shadows_later_handler"); vh_require("tables.from_shipped_patterns"); vh_require("headers.numeric_suffix_above_65536"); vh_require("units.empty_unit_at_the_end"); vh_require("units.empty_unit_in_front"); vh_require("units.empty_unit_in_the_middle"); vh_require("messages.ended_by_separator_and_zero_length_call_followed_by_another_message");
     return vh_main(argc, argv, "C02", phases, 1);
 }
